@@ -20,6 +20,7 @@ import (
 
 	"verif/sim/core"
 	"verif/sim/ev"
+	"verif/sim/layerc"
 )
 
 func seed() uint64 {
@@ -35,6 +36,10 @@ func seed() uint64 {
 }
 
 func main() {
+	if len(os.Args) == 2 && os.Args[1] == "mkknown" {
+		layerc.MakeKnown()
+		return
+	}
 	if len(os.Args) < 3 {
 		fmt.Fprintln(os.Stderr, "usage: vsim check|worker|replay <id> ...")
 		os.Exit(2)
